@@ -114,6 +114,20 @@ class LogVal:
             if is_conc(b) and _num(b) == 0:
                 return a
             raise Unsupported("sum of log-monomials (outside the encoding)")
+        if op == "ite":
+            c, a = a
+            A, B = LogVal.coerce(a), LogVal.coerce(b)
+            return LogVal(z3.If(c, A.L, B.L))
+        if op.startswith("cmp"):
+            # order of positive reals = order of their logs; a comparison against a non-positive constant is decided outright
+            rel = op[3:]
+            for x, other_is_left in ((a, False), (b, True)):
+                if is_conc(x) and _num(x) <= 0:
+                    if x is b:      # a (positive) rel b (<= 0)
+                        return {"<": False, "<=": False, ">": True, ">=": True, "==": False, "!=": True}[rel]
+                    return {"<": True, "<=": True, ">": False, ">=": False, "==": False, "!=": True}[rel]
+            A, B = LogVal.coerce(a), LogVal.coerce(b)
+            return {"<": A.L < B.L, "<=": A.L <= B.L, ">": A.L > B.L, ">=": A.L >= B.L, "==": A.L == B.L, "!=": A.L != B.L}[rel]
         A, B = LogVal.coerce(a), LogVal.coerce(b)
         if op == "mul":
             return LogVal(z3.simplify(A.L + B.L))
